@@ -89,6 +89,8 @@ type scenario struct {
 	UTCViaOpt  bool
 	LayoutSet  bool
 	LayoutArgs []string
+	// Neighbour: a record this far from the instant is printed first (0: none)
+	Neighbour time.Duration
 	Via        string // thru | adapter
 	TS         time.Time
 	// FlagHow: how the date/time/localtime flags get their value
@@ -249,6 +251,17 @@ func run(t vlib.TB, sc scenario) {
 	}
 	wantText := want.Format(layout)
 
+	if sc.Neighbour != 0 {
+		// a record of a neighbouring instant (a nanosecond, a microsecond, a millisecond, almost a second away) goes first,
+		// through the same logger under the same settings: whatever was rendered for it must not show in the next one
+		nb := sc.TS.Add(sc.Neighbour)
+		if h != nil {
+			_ = h.Handle(context.Background(), logslog.NewRecord(nb, logslog.LevelInfo, "neighbouring instant", 0))
+		} else {
+			lg.(slog.LogSlogAware).WriteThru(context.Background(), slog.InfoLevel, nb, 0, "neighbouring instant", nil)
+		}
+		log.Reset()
+	}
 	if h != nil {
 		rec := logslog.NewRecord(sc.TS, logslog.LevelInfo, "timestamp probe", 0)
 		if err := h.Handle(context.Background(), rec); err != nil {
@@ -284,8 +297,8 @@ func run(t vlib.TB, sc scenario) {
 		}
 		got = txt[:i]
 	}
-	desc := fmt.Sprintf("format=%s via=%s flags{date/time/us=%#x localTime=%v} utcCalls=%v(viaOpt=%v => mode %d) layoutSet=%v%q instant=%s (zone %s)",
-		sc.Format, sc.Via, int64(sc.DateFlags), sc.LocalTime, sc.UTCCalls, sc.UTCViaOpt, mode, sc.LayoutSet, sc.LayoutArgs, sc.TS.Format(time.RFC3339Nano), sc.TS.Location())
+	desc := fmt.Sprintf("format=%s via=%s flags{date/time/us=%#x localTime=%v} utcCalls=%v(viaOpt=%v => mode %d) layoutSet=%v%q instant=%s (zone %s) neighbour-printed-first=%v",
+		sc.Format, sc.Via, int64(sc.DateFlags), sc.LocalTime, sc.UTCCalls, sc.UTCViaOpt, mode, sc.LayoutSet, sc.LayoutArgs, sc.TS.Format(time.RFC3339Nano), sc.TS.Location(), sc.Neighbour)
 	if got != wantText {
 		vlib.Discrep(t, "C16/text", "C16 %s: timestamp is %q, want %q (layout %q, utc=%v)", desc, got, wantText, layout, useUTC)
 	}
@@ -324,6 +337,9 @@ func run(t vlib.TB, sc scenario) {
 	if nonUTC {
 		labels = append(labels, "non-utc-zone")
 	}
+	if sc.Neighbour != 0 {
+		labels = append(labels, "neighbouring-instant-printed-first")
+	}
 	vlib.Case("TestTimestamps", key, labels...)
 	if key != "" && vlib.WantSample("TestTimestamps/"+sc.Format) {
 		vlib.Sample("TestTimestamps/"+sc.Format, map[string]any{"scenario": desc, "printed": got})
@@ -358,11 +374,16 @@ func TestTimestamps(t *testing.T) {
 				given = given || l != ""
 			}
 			if !given {
-				sc.LayoutArgs = append(sc.LayoutArgs, rapid.SampledFrom(customLayouts).Draw(t, "layout"))
+				// (the nanosecond layout often: it is the one that shows a text remembered from a neighbouring instant)
+				sc.LayoutArgs = append(sc.LayoutArgs, rapid.SampledFrom(append([]string{time.RFC3339Nano, time.RFC3339Nano, time.RFC3339Nano, time.StampNano}, customLayouts...)).Draw(t, "layout"))
 			}
 		}
 		sc.Via = rapid.SampledFrom([]string{"thru", "thru", "adapter"}).Draw(t, "via")
 		sc.TS = genInstant().Draw(t, "instant")
+		if rapid.Bool().Draw(t, "neighbourFirst") {
+			sc.Neighbour = rapid.SampledFrom([]time.Duration{1, -1, 999, -999, time.Microsecond, -time.Microsecond, time.Millisecond, -time.Millisecond,
+				time.Second - 1, 1 - time.Second, time.Second, 500 * time.Millisecond}).Draw(t, "neighbour")
+		}
 		sc.FlagHow = rapid.SampledFrom([]string{"set", "set", "addremove", "scope", "restored"}).Draw(t, "flagHow")
 		sc.UsedBefore = rapid.IntRange(0, 2).Draw(t, "loggerUsedBeforeItsTimeStyleIsSet") == 0
 		for _, f := range []slog.Flags{slog.Ldate, slog.Ltime, slog.Lmicroseconds, slog.LlocalTime} {
